@@ -38,7 +38,9 @@ ASSUMPTIONS = [
 # ------------------------------------------------------------------------------------------------
 LEFTS = ['', ' ', '\n', '(', ',']
 RIGHTS = ['', ';', ',', ')', ' ', ' ;', '\n)']
-BOUNDARY = list('\'"`;-/*#$\n\r \\a0(),.+_Z:=') + ['é', '€', '\t']
+BOUNDARY = list('\'"`;-/*#$\n\r \\a0(),.+_Z:=') + ['é', '€', '\t'] + \
+    ['\ufeff', '\u200b', '\u200c', '\u200d', '\u2060', '\u2028', '\x85', '\x00', '\ud800', '\udc00', '\u212a', '\u017f',
+     '\u0130', '\u0131', '\u0301', '\xad', '\U0001f600']
 
 
 def _lexer():
@@ -83,7 +85,10 @@ def region_kinds():
             'dollar_tag']
 
 
-REGION_LEFTS = ['', ' ', '\n', '(', ',', ';', '= ', ') ', '\t', 'x ']
+REGION_LEFTS = ['', ' ', '\n', '(', ',', ';', '= ', ') ', '\t', 'x '] + \
+    ['', ' ', '\n', '(', ',', ';', '= ', ') ', '\t', 'x '] + \
+    ['timestamp ', 'interval ', 'like ', 'x::', 'N', 'U&', 'as ', 'zone ', 'time zone ', 'with time zone ',
+     'timestamp WITH\tTIME  ZONE\n', 'x at time zone ', 'AT  TIME\nZONE ', 'not like ', 'values', 'in', 'from', '1+', 'a||', 'x=']
 REGION_RIGHTS = ['', ';', ',', ')', ' ', '\n', ' x', '.y', '(', '+1', 'x', '1', '_',
                  # a later occurrence of each terminator (the region must end at the FIRST one)
                  " 'y'", ' "z"', ' `w`', ' /*x*/', ' */', '\n--c\n', ' $$q$$', ' $a$ $A$', "; select '*/' -- '\n"]
@@ -132,6 +137,8 @@ def make_region(r, kind):
         if closer == '\r' and right.startswith('\n'):
             right = ' ' + right
         region = opener + body + closer
+        if kind == 'line_hash' and left and (re.match(r'[\w$#]', left[-1], re.U)):
+            left = left + ' '      # '#' glued to a word character belongs to the word (outside the delimited contexts)
     else:
         tag = '' if kind == 'dollar' else r.choice(['a', 'BODY', '_x1', 'Zé'])
         delim = '$' + tag + '$'
@@ -552,6 +559,63 @@ def search(ctx, hints):
         if f:
             return {'failures': [f], 'tried': tried}
     return {'failures': [], 'tried': tried}
+
+
+# ---- known findings -----------------------------------------------------------------------------------
+_TZ_LEFT = re.compile(r"(?is)(?:^|[^\w$#@])(?:at|with')\s+time\s+zone\s+$")
+
+
+def _tzcast_literal(f):
+    """a single-quoted literal (body without quote, non-empty) directly after the words AT TIME ZONE / WITH' TIME ZONE:
+    the dedicated rule (AT|WITH')\\s+TIME\\s+ZONE\\s+'[^']+' takes it into the Keyword.TZCast token"""
+    if f.get('kind') != 'region' or 'span' not in f:
+        return False
+    text = ''.join(map(chr, f['input']))
+    a, b = f['span']
+    reg = text[a:b]
+    # the rule needs one character other than a quote after the opening quote (and stops at the next quote)
+    if not (len(reg) >= 3 and reg[0] == "'" and reg[-1] == "'" and reg[1] != "'"):
+        return False
+    return bool(_TZ_LEFT.search(text[:a])) and 'inside another token' in str(f.get('observed'))
+
+
+def _operator_glued_comment(f):
+    """a comment whose opener directly follows an operator character: the operator rule [+/@#%^&|^-]+ runs over the
+    first character(s) of the opener (1+/*c*/2 -> '+/' '*' 'c' '*' '/'; 1+--c -> '+--' 'c')"""
+    if f.get('kind') != 'region' or 'span' not in f:
+        return False
+    text = ''.join(map(chr, f['input']))
+    a, b = f['span']
+    reg = text[a:b]
+    if not (reg.startswith('/*') or reg.startswith('--') or reg.startswith('# ')):
+        return False
+    return a > 0 and text[a - 1] in '+/@#%^&|-' and 'inside another token' in str(f.get('observed'))
+
+
+CLASS_PREDICATES = {'tzcast-literal': _tzcast_literal, 'operator-glued-comment': _operator_glued_comment}
+
+
+def classify(failure, known):
+    for k in known:
+        pred = CLASS_PREDICATES.get(k.get('class'))
+        try:
+            if pred is not None and pred(failure):
+                return k['id']
+        except Exception:  # noqa
+            continue
+    return None
+
+
+def rederive_known(k):
+    w = k.get('witness', {})
+    if 'input' not in w or 'span' not in w:
+        return None
+    f = oracle(''.join(map(chr, w['input'])), tuple(w['span']), w.get('expected'))
+    if f:
+        f['kind'] = 'region'
+        if classify(f, [k]) == k['id']:
+            return f
+    return None
 
 
 def shrink(f):
